@@ -59,6 +59,8 @@ mod c_misc;
 mod c_scc;
 #[path = "../search/c_eq.rs"]
 mod c_eq;
+#[path = "../search/c_par.rs"]
+mod c_par;
 
 use {
     json::J,
@@ -263,9 +265,9 @@ fn eval_case_unwatched<C: Case>(c: &C) -> Option<J> {
     }
 }
 
-const PROPS: [&str; 18] = [
+const PROPS: [&str; 19] = [
     "C01", "C02", "C03", "C04", "C05", "C06", "C07", "C08", "C09", "C10", "C11",
-    "C12", "C14", "C15", "C16", "C18", "C19", "C20",
+    "C12", "C14", "C15", "C16", "C17", "C18", "C19", "C20",
 ];
 
 fn search(prop: &str, seed: u64, ctx: &mut Ctx) -> Option<J> {
@@ -281,6 +283,7 @@ fn search(prop: &str, seed: u64, ctx: &mut Ctx) -> Option<J> {
         "C14" => c_gen::search_c14(seed, ctx),
         "C15" => c_gen::search_c15(seed, ctx),
         "C16" => c_conv::search_c16(seed, ctx),
+        "C17" => c_par::search_c17(seed, ctx),
         "C18" => c_misc::search_c18(seed, ctx),
         "C19" => c_misc::search_c19(seed, ctx),
         "C20" => c_misc::search_c20(seed, ctx),
@@ -301,6 +304,7 @@ fn replay(prop: &str, j: &J) -> Result<Option<J>, String> {
         "C14" => c_gen::replay_c14(j),
         "C15" => c_gen::replay_c15(j),
         "C16" => c_conv::replay_c16(j),
+        "C17" => c_par::replay_c17(j),
         "C18" => c_misc::replay_c18(j),
         "C19" => c_misc::replay_c19(j),
         "C20" => c_misc::replay_c20(j),
@@ -357,6 +361,11 @@ fn main() {
         };
         match search(prop, seed, &mut ctx) {
             Some(f) => final_line(&format!("FOUND {f}")),
+            None if prop == "C17" => final_line(&format!(
+                "NONE evaluated={} threads={}",
+                ctx.evaluated,
+                c_par::threads()
+            )),
             None => final_line(&format!("NONE evaluated={}", ctx.evaluated)),
         }
     }
